@@ -13,7 +13,10 @@ pub mod c09;
 pub mod c10;
 pub mod c11;
 pub mod c15;
+pub mod c17;
 pub mod c18;
+pub mod c19;
+pub mod c20;
 
 use crate::obs::Ctx;
 
@@ -31,7 +34,10 @@ pub fn run(check: &str, ctx: &mut Ctx) -> bool {
         "c10" => c10::run(ctx),
         "c11" => c11::run(ctx),
         "c15" => c15::run(ctx),
+        "c17" => c17::run(ctx),
         "c18" => c18::run(ctx),
+        "c19" => c19::run(ctx),
+        "c20" => c20::run(ctx),
         _ => return false,
     }
     true
